@@ -78,3 +78,14 @@ def cbldm_replay(ck, maxn, maxv, ds):
     ck.classify(fails, lambda fl: {"alg": "cbldm", "key": fl["trace"]["key"], "model": fl["trace"]["m"], "code": fl["trace"]["c"]})
     ck.cat("cbldm_model_replays", len(recs))
     return recs
+
+
+def kk_mc_replay(ck, maxn, maxv, maxk, invariants=("Conservation", "SpreadBounded", "FinalOK")):
+    cfg = "CONSTANTS MaxN = %d MinV = 0 MaxV = %d MaxK = %d\nINIT Init\nNEXT Next\n%s" % (maxn, maxv, maxk, "".join("INVARIANT %s\n" % i for i in list(invariants) + ["Emit"]))
+    r = ck.mc("KK", cfg, "MC + GEN Karmarkar-Karp machine n<=%d v<=%d k<=%d: %s at every merge" % (maxn, maxv, maxk, ", ".join(invariants)),
+              coverage=True, required_actions=("Merge", "Finish"))
+    recs = [dict(e, alg="kk") for e in r.emitted]
+    traces = [t for p in core.pmap(drive.replay_simple, recs) for t in p]
+    fails = ck.judge("JDrift", traces, {"DRIFT"}, what="spec->code replay of KK (%d stimuli)" % len(recs), count_events=lambda t: 1)
+    ck.classify(fails, lambda fl: {"alg": "kk", "key": fl["trace"]["key"], "model": fl["trace"]["m"], "code": fl["trace"]["c"]})
+    ck.cat("kk_model_replays", len(recs))
